@@ -553,7 +553,7 @@ func (e *Engine) runPath(h *ssa.Function, prefix []uint64, res *Result) {
 	case "violation":
 		record("assert", label)
 	case "panic":
-		record("panic", firstLine(msg))
+		record("panic", normPanic(firstLine(msg)))
 	case "fuel":
 		record("fuel", "instruction budget")
 	case "exit":
@@ -561,6 +561,28 @@ func (e *Engine) runPath(h *ssa.Function, prefix []uint64, res *Result) {
 	default: // unsupported, inconclusive, depth
 		res.Inconclusive[kind+": "+msg]++
 	}
+}
+
+// normPanic removes the varying numbers from a runtime panic message so that it can serve as a label.
+func normPanic(s string) string {
+	var b strings.Builder
+	prevDigit := false
+	for _, r := range s {
+		if r >= '0' && r <= '9' {
+			if !prevDigit {
+				b.WriteByte('N')
+			}
+			prevDigit = true
+			continue
+		}
+		prevDigit = false
+		b.WriteRune(r)
+	}
+	out := b.String()
+	if len(out) > 90 {
+		out = out[:90]
+	}
+	return out
 }
 
 func firstLine(s string) string {
